@@ -13,7 +13,7 @@ PID = "X03"
 MODULE = "MCXRLifecycle"
 # (cfg suffix, scenarios replayed) per tier
 QUICK = [("quick", 700), ("quick_sel", 800), ("quick_user", 350), ("quick_world", 350)]
-THOROUGH = [("thorough", 30000), ("thorough_b", 14000), ("quick", 6459), ("quick_sel", 6000), ("quick_user", 7660), ("quick_world", 7133)]
+THOROUGH = [("thorough", 30000), ("thorough_b", 14000), ("thorough_f2", 10000), ("quick", 6459), ("quick_sel", 6000), ("quick_user", 7660), ("quick_world", 7133)]
 # witness cfgs: a guard of the model switched off must violate the named invariant (anti-vacuity at model level)
 WITNESS = [("witness_finfirst", ["FinBeforeCompose"]), ("witness_rvcheck", ["StepProps"])]
 
@@ -146,7 +146,7 @@ def run(ctx):
         mc = ctx.model_check(MODULE, cfg, sub="mc_" + name, workers=1, timeout=120, expect_violations=expect)
         consts[cfg] = dict(states=mc["states"], violated=mc["violated"], expected=expect)
     chosen = regression() + scs
-    s, nlines, hc = drive_and_judge(ctx, chosen, sweep=2 if ctx.quick else 40, shards=6 if ctx.quick else 14)
+    s, nlines, hc = drive_and_judge(ctx, chosen, sweep=2 if ctx.quick else 12, shards=6 if ctx.quick else 14)
     ctx.cov.update(dict(
         states=states, transitions=trans, traces_validated_against_impl=s["runs"], samples=s["samples"][:2],
         model_runs=consts, scenarios_emitted=emitted, scenarios_replayed=s["scenarios"], reconciles=s["reconciles"],
